@@ -478,6 +478,10 @@ func corpus(c *hx.Ctx) {
 			"mw.new", "mw.add p1=;loc=1", "mw.add p2=;loc=2", "mw.add p3=;loc=3", "mw.add w10=p3,p2,p1,p3", "mw.add w10=p1,p2,p3,p1", "mw.add a20=w10",
 			"mw.add w10=p1,p2", "mw.add p2=;noloc"},
 		{"oracle [1.2.3=vc]", "validator pts=[p1=;loc=1 p2=;loc=2 p3=;loc=3] src=[a20=w10 a21=w11 w10=p1,p2,p3,p1 w11=p1,p2]"},
+		// fixed (fixes/C37-validate-area-unresolved-point.patch): replacing the first point of a closed path under an
+		// area by a point without location panicked when the area was re-validated before the path (map order)
+		{"oracle [5.7.8=vc]", "mw.new", "mw.add p5=;loc=5", "mw.add p7=;loc=7", "mw.add p8=;loc=8", "mw.add w10=p5,p7,p8,p5", "mw.add a21=w10",
+			"mw.add p5=;noloc", "mw.add p5=;noloc", "mw.add p5=;noloc", "mw.add p5=;noloc", "mw.add p8=;loc=32"},
 		// finding degenerate_loop: points 3 and 6 coincide; S2 calls the loop valid and clockwise both ways
 		{"oracle [25.6.5.6=vw]", "validator pts=[p1=;loc=25 p3=;loc=6 p5=;loc=5 p6=;loc=6] src=[w12=p1,p3,p5,p6,p1]",
 			"build basic invert=1 cores=1 src=[p1=;loc=25 p3=;loc=6 p5=;loc=5 p6=;loc=6 w12=p1,p3,p5,p6,p1]"},
